@@ -21,7 +21,8 @@ Pow2(n) == IF n = 0 THEN 1 ELSE 2 * Pow2(n - 1)
 Ip(a, b, c, d) == ((a * 256 + b) * 256 + c) * 256 + d
 Peer == Ip(5, 5, 5, 5)
 \* CSubNet::Match for an IPv4 address
-Match(sub, addr) == sub.fam = 4 /\ (addr \div Pow2(32 - sub.len)) = (sub.base \div Pow2(32 - sub.len))
+\* (TLC integers are 32 bit: /0 is spelt out, the other prefix lengths of the table are at least 8)
+Match(sub, addr) == sub.fam = 4 /\ (sub.len = 0 \/ (addr \div Pow2(32 - sub.len)) = (sub.base \div Pow2(32 - sub.len)))
 \* -rpcallowip values (text = what is put on the command line)
 Allows == {
   [text |-> "5.5.5.5", fam |-> 4, base |-> Ip(5, 5, 5, 5), len |-> 32],
